@@ -11,7 +11,10 @@ defined from the property statement over the abstract snapshot, no cursor mechan
 What is proved for EVERY well-formed source set, option record and cursor-operation sequence:
   * `C06_merge_first_wins`, `C06_merge_strictly_sorted` — the merge-iterator tree over sorted,
     internally duplicate-free sources is the sorted union with first-source-wins, in both directions;
-  * `C06_db_iter` — HEADLINE for `DB.NewIterator` (good configuration);
+  * `C06_concat_seek` — `ConcatIterator.Seek` over the disjoint tables of a level = `dropWhile` of the
+    concatenation (both directions);
+  * `C06_db_iter` — HEADLINE for `DB.NewIterator` (good configuration; memtables, level-0 tables and
+    the concat iterator of a deeper level);
   * `C06_txn_stream_partial` — for `Txn.NewIterator` only the stream level (see there what is missing);
   * seven `C06_fails_asis_…` negations, one per defect of the unchanged tree, on the corpus witnesses.
 
@@ -30,10 +33,10 @@ open NoKV NoKV.Iter
 
 /-- close a goal about a concrete witness for every value of the flags the hypothesis leaves open -/
 macro "witness_cases" c:ident hc:ident : tactic => `(tactic| (
-  obtain ⟨adv, imm, pc, lks, rg, rst, dsd, sft, o1, o2, o3, o4, o5, o6, o7, o8, o9, o10, o11⟩ := $c
-  simp only [IterCfg.OpsGood] at $hc:ident
-  obtain ⟨h0, ⟨h1, h2, h3, h4, h5, h6, h7, h8, h9, h10, h11⟩, hadv⟩ := $hc
-  subst h1 h2 h3 h4 h5 h6 h7 h8 h9 h10 h11 hadv
+  obtain ⟨adv, imm, pc, lks, rg, rst, dsd, sft, o1, o2, o3, o4, o5, o6, o7, o8, o9, o10, o11, o12, o13⟩ := $c
+  simp only [IterCfg.OpsGood, IterCfg.ConcatGood] at $hc:ident
+  obtain ⟨h0, ⟨h1, h2, h3, h4, h5, h6, h7, h8, h9, h10, h11⟩, hadv, h12, h13⟩ := $hc
+  subst h1 h2 h3 h4 h5 h6 h7 h8 h9 h10 h11 hadv h12 h13
   cases imm <;> cases pc <;> cases lks <;> cases rg <;> cases rst <;> cases dsd <;> cases sft <;>
     first | (exact absurd h0 (by decide)) | decide))
 
@@ -61,6 +64,17 @@ theorem C06_merge_strictly_sorted (c : IterCfg) (hc : c.MergeGood) (srcs : List 
   rw [(C06_merge_first_wins c hc srcs hs).1]
   have := sorted_snapshotOf srcs
   rwa [dirLt_false] at this
+
+/-- **Concat lemma.**  Over the tables of a level — ascending, pairwise disjoint, non-empty, with
+non-empty blocks — `ConcatIterator.Seek` (pick the first table whose largest key is `>=` the target,
+resp. the last whose smallest key is `<=` it, then seek inside that table) yields exactly the
+concatenation of the tables from the first entry `>=` the target on (forward), resp. the reversed
+concatenation from the last entry `<=` the target on (reverse): no table is skipped, none is cut. -/
+theorem C06_concat_seek (c : IterCfg) (hc : c.ConcatGood ∧ c.sstSeekFallsThrough = true)
+    (ts : List (List (List Ent))) (h : LevelOK ts) (t : Ent) :
+    concatSeek c false t ts = ts.flatten.flatten.dropWhile (fun e => ikLt e t) ∧
+    concatSeek c true t ts = ts.flatten.flatten.reverse.dropWhile (fun e => ikLt t e) :=
+  ⟨concatSeek_fwd c hc.1 hc.2 t ts h, concatSeek_rev c hc.1 t ts h⟩
 
 /-! ### DB iterator -/
 
@@ -112,14 +126,16 @@ def dbExample : DB :=
   { mem := [⟨[0x70], 3, [], true, false⟩, ⟨[0x70, 0x71], 2, [0x76], false, false⟩],
     imms := [[⟨[0x70], 1, [0x76, 0x31], false, false⟩]],
     l0 := [[[⟨[0x61], 1, [0x76], false, false⟩], [⟨[0x70], 1, [0x6f, 0x6c, 0x64], false, false⟩]]],
+    lvl := [[[⟨[0x00], 1, [0x30], false, false⟩]], [[⟨[0x7a], 1, [0x7a], false, false⟩], [⟨[0x7a, 0x7a], 1, [0x7a], false, false⟩]]],
     nextTs := 4 }
 
 example : dbExample.WF :=
-  ⟨by decide, by decide, by decide, by decide⟩
+  ⟨by decide, by decide, by decide, ⟨by decide, by decide⟩, by decide⟩
 
-example : runDb IterCfg.good (newDbIt IterCfg.good dbExample true [] []) [.rewind, .next, .next, .seek [0x70]] =
+example : runDb IterCfg.good (newDbIt IterCfg.good dbExample true [] []) [.seek [0x61], .next, .next, .seek [0x79], .next] =
     [some ⟨[0x61], 1, [0x76], false, false⟩, some ⟨[0x70], 1, [0x76, 0x31], false, false⟩,
-     some ⟨[0x70, 0x71], 2, [0x76], false, false⟩, some ⟨[0x70], 1, [0x76, 0x31], false, false⟩] := by
+     some ⟨[0x70, 0x71], 2, [0x76], false, false⟩, some ⟨[0x7a], 1, [0x7a], false, false⟩,
+     some ⟨[0x7a, 0x7a], 1, [0x7a], false, false⟩] := by
   decide
 
 /-! ### the unchanged tree violates the property: negations on the corpus witnesses -/
@@ -130,7 +146,7 @@ def dbTomb : DB := (({} : DB).commit [⟨[0x61], [0x76, 0x31], false, false⟩, 
 /-- corpus/C06/finding-txnit-tombstone-resurrects.ops: key `a` deleted at version 2; a forward
 scan at read timestamp 2 yields `a` at version 1. -/
 theorem C06_fails_asis_tombstone (c : IterCfg)
-    (hc : c.lastKeyOnSkip = false ∧ c.OpsGood ∧ c.eqKeyAdvances = .right) :
+    (hc : c.lastKeyOnSkip = false ∧ c.OpsGood ∧ c.eqKeyAdvances = .right ∧ c.ConcatGood) :
     runTxn c (newTxnIt c dbTomb false [] {}) [.rewind, .next] ≠ specTxnRun dbTomb false [] {} [.rewind, .next] := by
   witness_cases c hc
 
@@ -139,7 +155,7 @@ def dbRev : DB := (({} : DB).commit [⟨[0x70], [0x76, 0x31], false, false⟩]).
 /-- corpus/C06/finding-txnit-reverse-oldest.ops: a reverse scan yields version 1 of `p`, the
 newest visible version is 2. -/
 theorem C06_fails_asis_reverse_oldest (c : IterCfg)
-    (hc : c.revGroup = .firstSeen ∧ c.OpsGood ∧ c.eqKeyAdvances = .right) :
+    (hc : c.revGroup = .firstSeen ∧ c.OpsGood ∧ c.eqKeyAdvances = .right ∧ c.ConcatGood) :
     runTxn c (newTxnIt c dbRev false [] { reverse := true }) [.rewind, .next] ≠
       specTxnRun dbRev false [] { reverse := true } [.rewind, .next] := by
   witness_cases c hc
@@ -150,7 +166,7 @@ def pendW : List Write := [⟨[0x70], [0x76, 0x39], false, false⟩, ⟨[0x70, 0
 /-- corpus/C06/finding-pending-bytes-order.ops: pending writes `p`, `pq` sorted by `bytes.Compare`
 on internal keys: `pq` precedes `p`; the scan is out of order and yields `p` twice. -/
 theorem C06_fails_asis_pending_order (c : IterCfg)
-    (hc : c.pendingCmp = .rawBytes ∧ c.OpsGood ∧ c.eqKeyAdvances = .right) :
+    (hc : c.pendingCmp = .rawBytes ∧ c.OpsGood ∧ c.eqKeyAdvances = .right ∧ c.ConcatGood) :
     runTxn c (newTxnIt c dbPend true pendW {}) [.rewind, .next, .next] ≠
       specTxnRun dbPend true pendW {} [.rewind, .next, .next] := by
   witness_cases c hc
@@ -160,7 +176,7 @@ def dbImm : DB := (((({} : DB).plain ⟨[0x61], [0x76, 0x31], false, false⟩).r
 /-- corpus/C06/finding-imm-oldest-first.ops: the same internal key in two immutable memtables:
 the DB iterator yields the older value. -/
 theorem C06_fails_asis_imm_order (c : IterCfg)
-    (hc : c.immOrder = .oldestFirst ∧ c.OpsGood ∧ c.eqKeyAdvances = .right) :
+    (hc : c.immOrder = .oldestFirst ∧ c.OpsGood ∧ c.eqKeyAdvances = .right ∧ c.ConcatGood) :
     runDb c (newDbIt c dbImm true [] []) [.rewind, .next] ≠ specDbRun dbImm true [] [] [.rewind, .next] := by
   witness_cases c hc
 
@@ -169,7 +185,7 @@ def dbDel : DB := ((({} : DB).plain ⟨[0x61], [0x76, 0x31], false, false⟩).pl
 
 /-- corpus/C06/finding-dbit-yields-tombstones.ops: `DB.Del(a)` then a DB scan yields `a`. -/
 theorem C06_fails_asis_db_tombstone (c : IterCfg)
-    (hc : c.dbSkipsDeleted = false ∧ c.OpsGood ∧ c.eqKeyAdvances = .right) :
+    (hc : c.dbSkipsDeleted = false ∧ c.OpsGood ∧ c.eqKeyAdvances = .right ∧ c.ConcatGood) :
     runDb c (newDbIt c dbDel true [] []) [.rewind, .next] ≠ specDbRun dbDel true [] [] [.rewind, .next] := by
   witness_cases c hc
 
@@ -177,7 +193,7 @@ def dbSeek : DB := (({} : DB).commit [⟨[0x61], [0x76, 0x31], false, false⟩])
 
 /-- corpus/C06/finding-dbit-reverse-seek-skips-target.ops: reverse `Seek(b)` lands on `a`. -/
 theorem C06_fails_asis_db_reverse_seek (c : IterCfg)
-    (hc : c.dbRevSeekTs = .max ∧ c.OpsGood ∧ c.eqKeyAdvances = .right) :
+    (hc : c.dbRevSeekTs = .max ∧ c.OpsGood ∧ c.eqKeyAdvances = .right ∧ c.ConcatGood) :
     runDb c (newDbIt c dbSeek false [] []) [.seek [0x62], .next] ≠ specDbRun dbSeek false [] [] [.seek [0x62], .next] := by
   witness_cases c hc
 
@@ -195,7 +211,7 @@ set_option maxRecDepth 20000 in
 /-- corpus/C06/finding-sst-seek-block-gap.ops: `k16` is the first entry of the second block of the
 flushed table; `Seek(k16)` at read timestamp 4 (its version is 2) and `Seek(k15)` end invalid. -/
 theorem C06_fails_asis_sst_block_gap (c : IterCfg)
-    (hc : c.sstSeekFallsThrough = false ∧ c.OpsGood ∧ c.eqKeyAdvances = .right) :
+    (hc : c.sstSeekFallsThrough = false ∧ c.OpsGood ∧ c.eqKeyAdvances = .right ∧ c.ConcatGood) :
     runTxn c (newTxnIt c dbGap false [] {}) [.seek [0x6b, 0x31, 0x36], .seek [0x6b, 0x31, 0x35]] ≠
       specTxnRun dbGap false [] {} [.seek [0x6b, 0x31, 0x36], .seek [0x6b, 0x31, 0x35]] := by
   witness_cases c hc
